@@ -25,6 +25,8 @@ type ActCase struct {
 	FailAt int   `json:"fail_at"` // batch: index of an item whose exec fails (-1: none)
 	// scripted kinds: 0 exec succeeds at once, 1 succeeds on the second attempt, 2 every attempt fails and the fallback recovers
 	ExecPath int `json:"exec_path,omitempty"`
+	// > "": the same node object was run once before and returned this (custom) action then
+	Earlier string `json:"earlier,omitempty"`
 }
 
 type probeNode struct {
@@ -75,6 +77,9 @@ func runActCase(cs *ActCase) (fs []finding) {
 			}
 		}
 		ns := scen.NodeSpec{Kind: kind, N: 1, HasFB: true, Visits: []scen.Visit{{FirstOK: 1, Post: cs.Post}}}
+		if cs.Earlier != "" {
+			ns.Visits = []scen.Visit{{FirstOK: 1, Post: cs.Earlier}, {FirstOK: 1, Post: cs.Post}}
+		}
 		switch cs.ExecPath {
 		case 1:
 			ns.N, ns.Visits[0].FirstOK = 2, 2
@@ -84,6 +89,11 @@ func runActCase(cs *ActCase) (fs []finding) {
 		}
 		sc := &scen.Scenario{Nodes: []scen.NodeSpec{ns}, Root: 0, Runs: 1}
 		node = scen.NewExec(sc).RootNode()
+		if cs.Earlier != "" { // first use of this node object
+			if a, err := flyt.Run(context.Background(), node, flyt.NewSharedStore()); err != nil || string(a) != cs.Earlier {
+				add("earlier-run:"+cs.Kind, "the earlier run of the node returned (%q, %v), want %q", a, err, cs.Earlier)
+			}
+		}
 	}
 	if !cs.Routed {
 		act, err := flyt.Run(context.Background(), node, flyt.NewSharedStore())
@@ -104,7 +114,7 @@ func runActCase(cs *ActCase) (fs []finding) {
 	dOther := &probeNode{flyt.NewBaseNode(), &decoyOther}
 	f := flyt.NewFlow(node)
 	f.Connect(node, "", dEmpty)
-	for _, a := range []string{"default", "custom", "done"} {
+	for _, a := range []string{"default", "custom", "done", " ", "\t\n", "earlier-custom"} {
 		if a == want {
 			f.Connect(node, flyt.Action(a), probe)
 		} else {
@@ -135,7 +145,7 @@ func init() {
 func runC18(c *Cfg) {
 	r := c.Rep
 	var cases []*ActCase
-	for _, post := range []string{"", "default", "custom"} {
+	for _, post := range []string{"", "default", "custom", " ", "\t\n"} {
 		for _, routed := range []bool{false, true} {
 			for k := 0; k < scen.NumScriptedKinds; k++ {
 				cases = append(cases, &ActCase{Family: "grid", Kind: scen.KindNames[k], Post: post, Routed: routed, FailAt: -1})
@@ -145,6 +155,8 @@ func runC18(c *Cfg) {
 				if scen.KindCanFB(k) {
 					cases = append(cases, &ActCase{Family: "grid", Kind: scen.KindNames[k], Post: post, Routed: routed, FailAt: -1, ExecPath: 2})
 				}
+				// the node object has been used before and returned a custom action then
+				cases = append(cases, &ActCase{Family: "grid-reused-node", Kind: scen.KindNames[k], Post: post, Routed: routed, FailAt: -1, Earlier: "earlier-custom"})
 			}
 			cases = append(cases, &ActCase{Family: "grid", Kind: "flow", Post: post, Routed: routed, FailAt: -1}, &ActCase{Family: "grid", Kind: "flow-in-flow", Post: post, Routed: routed, FailAt: -1})
 			for n := 0; n <= 3; n++ {
